@@ -1,8 +1,10 @@
 #!/bin/bash
 # usage: tools/seed_eval.sh <prop> <N> [tier]   confirms a seeded change in its scratch worktree, stores it under
 # /verif/seeded/<prop>-<N>/ and runs the check of <prop> against /repo with the patch applied (then restores /repo).
-prop=$1; n=$2; tier=${3:-quick}
-wt=/tmp/wt-$prop; src=$wt/seed_out/$n
+prop=$1; n=$2; tier=${3:-quick}; round=${4:-}
+wt=/tmp/wt-$prop; [ -n "$round" ] && wt=/tmp/w$round-$prop
+src=$wt/seed_out/$n
+sid=$prop-$n; [ -n "$round" ] && sid=$prop-r$round-$n
 export GOFLAGS=-mod=mod GOPROXY=off GOSUMDB=off GOTOOLCHAIN=local
 [ -f $src/patch.diff ] || { echo "no patch at $src"; exit 2; }
 dir=$(cat $src/demo_dir.txt | tr -d '\n ')
@@ -18,24 +20,43 @@ demo_with=pass; go test -vet=off -count=1 -run "TestSeedDemo${n}\$" ./$dir >/tmp
 git checkout -q -- . 
 demo_without=pass; go test -vet=off -count=1 -run "TestSeedDemo${n}\$" ./$dir >/tmp/seed_demo_without.log 2>&1 || demo_without=fail
 rm -f $dir/seed_demo_${n}_test.go
-echo "confirm $prop-$n: build=$build suite=$suite demo_with_change=$demo_with demo_without_change=$demo_without"
+echo "confirm $sid: build=$build suite=$suite demo_with_change=$demo_with demo_without_change=$demo_without"
 # 3. our check against /repo with the patch
 cd /verif
-git -C /repo apply $src/patch.diff || { echo "patch does not apply to /repo"; exit 2; }
-out=$(timeout 3600 ./checks/run.sh $prop $tier 2>&1); code=$?
-git -C /repo checkout -- .
-echo "check $prop $tier exit=$code"
+if [ -n "${SEED_SCRATCH:-}" ]; then
+  # run against a scratch worktree of /repo's HEAD instead of /repo itself (lets other work continue on /repo)
+  target=$SEED_SCRATCH
+  [ -d $target ] || git -C /repo worktree add -q --detach $target HEAD
+  git -C $target checkout -q --detach $(git -C /repo rev-parse HEAD) && git -C $target checkout -q -- .
+  export VERIF_REPO=$target VERIF_EVIDENCE_DIR=/tmp/seed_evidence
+else
+  target=/repo
+fi
+git -C $target apply $src/patch.diff || { echo "patch does not apply to $target"; exit 2; }
+VD=${SEED_VERIF:-/verif}
+out=$(timeout 3600 $VD/checks/run.sh $prop $tier 2>&1); code=$?
+others=""
+if [ $code -ne 1 ]; then
+  # not reported by the property's own check: which other checks report it?
+  for o in C01 C02 C03 C04 C08 C10 C11 C12 C13 C14 C15 C16 C17 C18 C20; do
+    [ $o = $prop ] && continue
+    timeout 1800 $VD/checks/run.sh $o quick >/tmp/seed_other.log 2>&1; oc=$?
+    [ $oc -eq 1 ] && others="$others $o"
+  done
+fi
+git -C $target checkout -- .
+echo "check $prop $tier exit=$code other_checks_reporting:[$others ]"
 echo "$out" | grep -E "^(VIOLATION|INCONCLUSIVE|  harness)" | head -4 | cut -c1-300
-mkdir -p seeded/$prop-$n
-cp $src/patch.diff $src/demo_test.go $src/demo_dir.txt $src/README.md seeded/$prop-$n/
+mkdir -p seeded/$sid
+cp $src/patch.diff $src/demo_test.go $src/demo_dir.txt $src/README.md seeded/$sid/
 first=$(echo "$out" | grep -E "^(VIOLATION|INCONCLUSIVE)" | head -1 | cut -c1-200)
 detail=$(echo "$out" | grep -E "^  harness" | head -1 | cut -c1-400)
-python3 - "$prop" "$n" "$tier" "$build" "$suite" "$demo_with" "$demo_without" "$code" "$first" "$detail" <<'PY'
+python3 - "$prop" "$sid" "$tier" "$build" "$suite" "$demo_with" "$demo_without" "$code" "$first" "$detail" "$others" <<'PY'
 import json,sys
-prop,n,tier,build,suite,dw,dwo,code,first,detail=sys.argv[1:]
+prop,n,tier,build,suite,dw,dwo,code,first,detail,others=sys.argv[1:]
 meta={"property":prop,"seed":n,"origin":"independent sub-agent given only the property text and a scratch worktree",
  "confirmed":{"builds_with_change":build,"existing_suite_with_change":suite,"demo_with_change":dw,"demo_without_change":dwo,
    "how":"tools/seed_eval.sh: git apply in the scratch worktree, go build ./..., go test (library packages), demo test with and without the patch"},
- "check":{"tier":tier,"exit":int(code),"first_line":first,"detail":detail,"detected":int(code)==1}}
-json.dump(meta,open("/verif/seeded/%s-%s/meta.json"%(prop,n),"w"),indent=1)
+ "check":{"tier":tier,"exit":int(code),"first_line":first,"detail":detail,"detected":int(code)==1,"other_checks_reporting":others.split()}}
+json.dump(meta,open("/verif/seeded/%s/meta.json"%n,"w"),indent=1)
 PY
